@@ -97,6 +97,18 @@ fn check(case: &SemCase, net0: &Net, fs: &[F]) -> Verdict {
         results.insert(format!("formula-{}", i + 20), r);
     }
     let model_text = net.bn.to_string();
+    // history: the target path may already hold an older archive with other labels / formulae
+    let overwrite = case.extra.get("overwrite").and_then(|o| o.as_bool()).unwrap_or(true);
+    if overwrite {
+        let mut older: LabelToSetMap = results.clone();
+        older.insert("stale_label".into(), g.mk_unit_colored_vertices());
+        older.insert("formula-0".into(), g.mk_empty_colored_vertices());
+        let mut older_formulae = texts.clone();
+        older_formulae.push("true".into());
+        if let Ok(Err(e)) = guard(|| build_result_archive(older, &zip_path, &model_text, older_formulae)) {
+            bad!("C16:archive-not-written", "build_result_archive (older archive at the same path): {e}");
+        }
+    }
     match guard(|| build_result_archive(results.clone(), &zip_path, &model_text, texts.clone())) {
         Err(p) => return Verdict::Fail(panic_fail("C16", "build_result_archive", &p, case)),
         Ok(Err(e)) => bad!("C16:archive-not-written", "build_result_archive: {e}"),
@@ -170,6 +182,13 @@ fn check(case: &SemCase, net0: &Net, fs: &[F]) -> Verdict {
     if !plain.is_empty() {
         let zip2 = dir.path().join("analysis.zip").to_string_lossy().to_string();
         let list: Vec<String> = plain.iter().map(|s| s.to_string()).collect();
+        if overwrite {
+            // an earlier analysis with more formulae wrote to the same path
+            let mut longer = list.clone();
+            longer.push("true".into());
+            longer.push("false".into());
+            let _ = guard(|| analyse_formulae(&net.bn, longer, PrintOptions::NoPrint, Some(zip2.clone()), None));
+        }
         match guard(|| analyse_formulae(&net.bn, list.clone(), PrintOptions::NoPrint, Some(zip2.clone()), None)) {
             Err(p) => return Verdict::Fail(panic_fail("C16", "analyse_formulae", &p, case)),
             Ok(Err(e)) => bad!("C16:analysis-error", "analyse_formulae: {e}"),
@@ -230,6 +249,7 @@ fn check(case: &SemCase, net0: &Net, fs: &[F]) -> Verdict {
     if analysed {
         classes.push("analysis-archive".into());
     }
+    classes.push(if overwrite { "path-held-older-archive".into() } else { "fresh-path".into() });
     Verdict::Pass(CaseReport {
         nontrivial: results.len() >= 2 && nontrivial_sets >= 1 && distinct_sets.len() >= 2,
         key: case.key(),
@@ -244,7 +264,7 @@ impl Property for C16 {
         "C16"
     }
     fn rule(&self) -> String {
-        "random network (as aeon; fully specified ones also taken through bnet / sbml text first) x label -> set map (labels: name words incl. `formula-<i>`, digits, operator-like; sets: empty / full / random coloured sets, and raw results of generated formulae) x formula list: build_result_archive -> zip entries are exactly one per result + model + formula list -> graph rebuilt from the archived model with the same k has identical symbolic variables -> load_bdd_bundle returns the same labels with BDD-equal sets -> extended formulae evaluate identically with reloaded and in-memory context sets; analyse_formulae's own archive: entry formula-<i> == library result of line i. Non-trivial: >= 2 labels, >= 2 different sets, one of them neither empty nor full.".into()
+        "random network (as aeon; fully specified ones also taken through bnet / sbml text first) x label -> set map (labels: name words incl. `formula-<i>`, digits, operator-like; sets: empty / full / random coloured sets, and raw results of generated formulae) x formula list: build_result_archive (in half of the cases the target path already holds an older archive with other labels and a longer formula list) -> zip entries are exactly one per result + model + formula list -> graph rebuilt from the archived model with the same k has identical symbolic variables -> load_bdd_bundle returns the same labels with BDD-equal sets -> extended formulae evaluate identically with reloaded and in-memory context sets; analyse_formulae's own archive: entry formula-<i> == library result of line i. Non-trivial: >= 2 labels, >= 2 different sets, one of them neither empty nor full.".into()
     }
     fn assumptions(&self) -> Vec<String> {
         vec!["temporary files are written below the system temp directory and removed after each case".into()]
@@ -266,7 +286,7 @@ impl Property for C16 {
                             .insert(l.to_string(), gen::resolve_set(&raw.0.sets[i % raw.0.sets.len()], &net));
                     }
                 }
-                case.extra = json!({"format": raw.2});
+                case.extra = json!({"format": raw.2, "overwrite": raw.1 & 128 == 0});
                 check(&case, &net, &fs)
             }
         }
